@@ -86,7 +86,8 @@ theorem dumpLoop_eq (rr : RowReader) (tables : List (Nat × TableInfo)) (attrs :
 passing the filters, in filenode order -/
 theorem kept_infos (π : MapOrder TableInfo) (hπ : ∀ l, π l ~ l) (o : Options) (tables : List (Nat × TableInfo))
     (hk : KeysOK tables) (live : List ClassRow) (hvals : tables.map (·.2) = (live.filter (·.filenode != 0)).map infoOfRel)
-    (hnd : ((live.filter (·.filenode != 0)).map (·.filenode)).Nodup) (hkind : ∀ r ∈ live, r.kind < 256) :
+    (hnd : ((live.filter (·.filenode != 0)).map (·.filenode)).Nodup) (hkind : ∀ r ∈ live, r.kind < 256)
+    (hasc : GoCase.FilterStable o live) :
     ((sortNat ((π tables).map (·.1))).filterMap fun k => mapGet tables k).filter (keepTable o) =
       (sortBy ClassRow.filenode (live.filter (Spec.selectedRel o))).map infoOfRel := by
   rw [sorted_lookup tables hk _ ((hπ tables).map _), hvals, sortByFilenode_eq,
@@ -101,7 +102,7 @@ theorem kept_infos (π : MapOrder TableInfo) (hπ : ∀ l, π l ~ l) (o : Option
     apply filter_congr
     intro r hr'
     obtain ⟨h1, h2⟩ := hmemNZ r hr'
-    exact keepTable_selected o r (hkind r h1) h2
+    exact keepTable_selected o r (hkind r h1) h2 (filterAscii_at hasc r h1)
   rw [hf, sortBy_filter ClassRow.filenode (Spec.selectedRel o) _ hinj, filter_filter]
   have hsel : (live.filter fun r => Spec.selectedRel o r && (r.filenode != 0)) = live.filter (Spec.selectedRel o) := by
     apply filter_congr
@@ -176,6 +177,40 @@ theorem expectedCols_names (val : Bytes → Int → M GoVal) : ∀ (cols : List 
         subst h
         simp only [map_cons]
         rw [expectedCols_names val cs vs (k - 1) rest (by simpa using hl) hr]
+
+theorem storedCols_cons (val : Bytes → Int → M GoVal) (tbl : List (Datum × Bytes)) (c : Col) (cs : List Col) (v : Option Datum)
+    (vs : List (Option Datum)) (k : Nat) :
+    storedCols val tbl (c :: cs) (v :: vs) k =
+      ((match k, v with | _ + 1, some d => storedVal val tbl c d | _, _ => pure GoVal.nil) >>= fun x =>
+        storedCols val tbl cs vs (k - 1) >>= fun rest => pure ((c.name, x) :: rest)) := by
+  cases k <;> cases v <;> rfl
+
+/-- on a row without compressed / out-of-line values "what was stored" is what C03's view reads from the row's bytes -/
+theorem storedCols_inline (val : Bytes → Int → M GoVal) (tbl : List (Datum × Bytes)) : ∀ (cols : List Col)
+    (vals : List (Option Datum)) (k : Nat), vals.all inlineDatum = true → storedCols val tbl cols vals k = expectedCols val cols vals k
+  | [], _, _, _ => by simp [storedCols, expectedCols]
+  | _ :: _, [], _, _ => by simp [storedCols, expectedCols]
+  | c :: cs, v :: vs, k, h => by
+    simp only [all_cons, Bool.and_eq_true] at h
+    have ih := storedCols_inline val tbl cs vs (k - 1) h.2
+    rw [storedCols_cons, expectedCols_cons, ih]
+    have h1 := h.1
+    clear ih h
+    cases k with
+    | zero => rfl
+    | succ k =>
+      cases v with
+      | none => rfl
+      | some d => cases d <;> first | rfl | (simp [inlineDatum] at h1)
+
+theorem storedRow_inline (val : Bytes → Int → M GoVal) (tbl : List (Datum × Bytes)) (cols : List Col) (r : RowV)
+    (h : r.vals.all inlineDatum = true) : storedRow val tbl cols r = rowOf val cols r := by
+  unfold storedRow rowOf rowView
+  rw [storedCols_inline val tbl cols r.vals r.natts h]
+
+theorem storedRow_nil (val : Bytes → Int → M GoVal) (tbl : List (Datum × Bytes)) (r : RowV) : storedRow val tbl [] r = [] := by
+  unfold storedRow
+  cases r.vals <;> rfl
 
 theorem heap_flatten (cols : List Col) (pages : List (List RowV)) :
     (pages.map fun pg => pg.map (formTuple cols)).flatten = pages.flatten.map (formTuple cols) := by
@@ -288,7 +323,7 @@ structure RelReadable (d : DbContent) (r : ClassRow) : Prop where
 /-- **a table without columns** (fixes/cluster/09): readTableRows gives one empty row per live row version -/
 theorem readTableRows_nocols (dec : Dec) (pages : List (List RowV)) (hwf : ∀ pg ∈ pages, ∀ r ∈ pg, r.WF [])
     (hfit : pagesFit (pages.map fun pg => pg.map (formTuple []))) :
-    readTableRows (readRows dec) (encRowPages [] pages) [] = .ok ((liveRows pages []).map (rowOf (varlenaVal dec) [])) := by
+    readTableRows (readRows dec) (encRowPages [] pages) [] = .ok ((liveRows pages []).map (fun _ => ([] : DRow))) := by
   unfold readTableRows
   rw [if_neg (by simp)]
   unfold encRowPages
@@ -303,22 +338,14 @@ theorem readTableRows_nocols (dec : Dec) (pages : List (List RowV)) (hwf : ∀ p
     rw [h1]
     unfold liveRows
     congr 1
-  have hrow : ∀ r ∈ liveRows pages [], rowOf (varlenaVal dec) [] r = [] := by
-    intro r _
-    unfold rowOf rowView
-    cases r.vals <;> rfl
   congr 1
-  rw [map_const', hlen]
-  symm
-  exact eq_replicate_iff.mpr ⟨length_map _, fun b hb => by
-    obtain ⟨r, hr, rfl⟩ := mem_map.mp hb
-    exact hrow r hr⟩
+  rw [map_const', map_const', hlen]
 
 /-- the rows the specification expects for relation `r` -/
 def specRows (val : Spec.Val) (d : DbContent) (o : Options) (r : ClassRow) : List DRow :=
   if o.listOnly then []
   else match d.heaps.lookup r.filenode with
-    | some pages => (liveRows pages ((userAttrs d.att r.oid).map attrCol)).map (rowOf val ((userAttrs d.att r.oid).map attrCol))
+    | some pages => (liveRows pages ((userAttrs d.att r.oid).map attrCol)).map (storedRow val d.detoast ((userAttrs d.att r.oid).map attrCol))
     | none => []
 
 def specCols (d : DbContent) (r : ClassRow) : List ColumnInfo :=
@@ -358,6 +385,8 @@ theorem dumpTable_spec (dec : Dec) (l : Layout) (d : DbContent) (o : Options) (r
     (hreader : o.listOnly = false →
       rd r.filenode = (d.heaps.lookup r.filenode).map (encRowPages (colsOfFilenode d r.filenode)))
     (hok : ∀ pages, d.heaps.lookup r.filenode = some pages → o.listOnly = false → pages ≠ [] → RelReadable d r)
+    (hinl : ∀ pages, d.heaps.lookup r.filenode = some pages → o.listOnly = false →
+      ∀ pg ∈ pages, ∀ row ∈ pg, row.vals.all inlineDatum = true)
     (t : TableDump)
     (h : dumpTable (readRows dec) r.filenode (infoOfRel r) ((userAttrs d.att r.oid).map attrInfoOf) (some rd) o = .ok t) :
     normTable t = expectedTable (varlenaVal dec) d o r := by
@@ -366,6 +395,7 @@ theorem dumpTable_spec (dec : Dec) (l : Layout) (d : DbContent) (o : Options) (r
     have ha' : a ∈ d.att.live := (mem_filter.mp ((mem_sortAttrs a _).mp ha)).1
     obtain ⟨s, hs, rfl⟩ := live_mem_versions d.att a ha'
     exact (hwf.2.2.2.2.2.1 s hs).2.2.2.2.2.2.2.2.2
+  have hinl' := hinl
   obtain ⟨_, _, hfnd, _, _, _, _, _, _, hheaps⟩ := hwf
   rw [expectedTable_eq]
   have hcols := modelCols_norm (userAttrs d.att r.oid)
@@ -429,15 +459,22 @@ theorem dumpTable_spec (dec : Dec) (l : Layout) (d : DbContent) (o : Options) (r
               rw [hempty] at hrows hfit
               rw [readTableRows_nocols dec pages (fun pg hpg r' hr' => (hrows pg hpg r' hr').1) hfit] at hrr
               injection hrr with hrr
-              exact hrr.symm
+              rw [← hrr]
+              apply map_congr_left
+              intro r' _
+              exact (storedRow_nil _ _ r').symm
             · have hne : (userAttrs d.att r.oid).map toolColumn ≠ [] := by
                 intro hm; exact hempty (map_eq_nil_iff.mp hm)
               unfold readTableRows at hrr
               rw [if_pos (by exact length_pos_iff.mpr hne)] at hrr
-              exact readRows_heap dec _ _ pages
+              rw [readRows_heap dec _ _ pages
                 (colsMatch_attrs 0 _ hrd'.dense halign)
                 hne
-                (fun pg hpg r' hr' => (hrows pg hpg r' hr').1) hfit hnames rows hrr
+                (fun pg hpg r' hr' => (hrows pg hpg r' hr').1) hfit hnames rows hrr]
+              apply map_congr_left
+              intro r' hr'
+              obtain ⟨pg, hpg, hrp⟩ := mem_flatten.mp (mem_filter.mp hr').1
+              exact (storedRow_inline _ _ _ r' (hinl' pages hlk hl pg hpg r' hrp)).symm
 
 
 
@@ -460,7 +497,7 @@ theorem dbWF_parts (l : Layout) (d : DbContent) (hwf : d.WF l) :
     (∀ s ∈ d.cls.versions, nameOK s.val.name ∧ s.val.oid < 2 ^ 32 ∧ s.val.filenode < 2 ^ 32 ∧ s.infomask < 65536) ∧
     AttHeapWF l d.att ∧ (∀ r ∈ d.cls.live, r.kind < 256) ∧ (∀ r ∈ d.cls.live, 0 < r.oid) := by
   obtain ⟨_, _, _, hcls, _, hatt, _, hfita, _, _⟩ := hwf
-  refine ⟨fun s hs => ⟨(hcls s hs).1, (hcls s hs).2.1, (hcls s hs).2.2.2.1, (hcls s hs).2.2.2.2.2⟩, ⟨fun s hs => ?_, hfita⟩, ?_, ?_⟩
+  refine ⟨fun s hs => ⟨(hcls s hs).1, (hcls s hs).2.1, (hcls s hs).2.2.2.1, (hcls s hs).2.2.2.2.2.1⟩, ⟨fun s hs => ?_, hfita⟩, ?_, ?_⟩
   · obtain ⟨h1, _, h3, h4, h5, h6, h7, h8, h9, h10⟩ := hatt s hs
     exact ⟨⟨h1, h3, h4, ⟨h5, h6⟩, ⟨h7, h8⟩, h10⟩, h9⟩
   · intro r hr
@@ -475,7 +512,8 @@ with the real row reader, the function is the loop of dumpTable over the ordinar
 once, in filenode order — each called with the relation's columns: the live pg_attribute rows of its oid with
 attnum > 0, in attnum order.  For every file reader (or none), every iteration order of the table map. -/
 theorem dumpDatabase_tables (dec : Dec) (hd : CatDec dec) (π : MapOrder TableInfo) (hπ : ∀ l, π l ~ l) (l : Layout)
-    (d : DbContent) (o : Options) (reader : Option FileReader) (hwf : d.WF l) (hs : SchemaOK l d.att o.pgVersion) :
+    (d : DbContent) (o : Options) (reader : Option FileReader) (hwf : d.WF l) (hs : SchemaOK l d.att o.pgVersion)
+    (hasc : GoCase.FilterStable o d.cls.live) :
     dumpDatabaseFromFiles (readRows dec) π (encHeapOf pgClassCols classVals d.cls)
         (encHeapOf (pgAttributeCols l) (attrVals l) d.att) reader o =
       collectM (fun r : ClassRow => do
@@ -491,7 +529,7 @@ theorem dumpDatabase_tables (dec : Dec) (hd : CatDec dec) (π : MapOrder TableIn
   obtain ⟨attrs, ha, hattrs⟩ := parsePGAttribute_enc dec hd l d.att o.pgVersion haw hs hattnd
   unfold dumpDatabaseFromFiles
   simp only [ht, ha, ok_bind]
-  rw [dumpLoop_eq _ tables attrs reader o hk.2, kept_infos π hπ o tables hk d.cls.live hvals hfnd hkind,
+  rw [dumpLoop_eq _ tables attrs reader o hk.2, kept_infos π hπ o tables hk d.cls.live hvals hfnd hkind hasc,
     ← PgVerif.Proofs.Rows.collectM_map infoOfRel]
   apply collectM_congr
   intro r hr
@@ -506,6 +544,7 @@ of a well-formed database and a file reader that serves the encoded heaps return
 which, in which order, with which columns and rows. -/
 theorem dumpDatabase_spec (dec : Dec) (hd : CatDec dec) (π : MapOrder TableInfo) (hπ : ∀ l, π l ~ l) (l : Layout)
     (d : DbContent) (o : Options) (db : DbRow) (rd : FileReader) (hwf : d.WF l) (hs : SchemaOK l d.att o.pgVersion)
+    (hasc : GoCase.FilterStable o d.cls.live) (hA02 : A02Free d o)
     (hreader : ∀ r ∈ d.cls.live, selectedRel o r = true → o.listOnly = false →
       rd r.filenode = (d.heaps.lookup r.filenode).map (encRowPages (colsOfFilenode d r.filenode)))
     (hok : ∀ r ∈ d.cls.live, selectedRel o r = true → ∀ pages, d.heaps.lookup r.filenode = some pages →
@@ -514,13 +553,14 @@ theorem dumpDatabase_spec (dec : Dec) (hd : CatDec dec) (π : MapOrder TableInfo
     (h : dumpDatabaseFromFiles (readRows dec) π (encHeapOf pgClassCols classVals d.cls)
           (encHeapOf (pgAttributeCols l) (attrVals l) d.att) (some rd) o = .ok ts) :
     ts.map normTable = (expectedDb (varlenaVal dec) o db d).tables := by
-  rw [dumpDatabase_tables dec hd π hπ l d o (some rd) hwf hs] at h
+  rw [dumpDatabase_tables dec hd π hπ l d o (some rd) hwf hs hasc] at h
   rw [expectedDb_tables]
   refine collectM_some_spec _ normTable (expectedTable (varlenaVal dec) d o) _ ts h ?_
   intro r hr t ht'
   have hmem := mem_filter.mp ((sortBy_perm _ _).subset hr)
   obtain ⟨hk114, hfn0⟩ := selectedRel_kind o r hmem.2
-  exact dumpTable_spec dec l d o r rd hmem.1 hk114 hfn0 hwf (hreader r hmem.1 hmem.2) (hok r hmem.1 hmem.2) t ht'
+  exact dumpTable_spec dec l d o r rd hmem.1 hk114 hfn0 hwf (hreader r hmem.1 hmem.2) (hok r hmem.1 hmem.2)
+    (fun pages hlk hl => hA02 hl r hmem.1 hmem.2 pages hlk) t ht'
 
 /-- the identity and the columns of a dumped table, type names the specification does not have blanked -/
 def tableCols (t : TableDump) : (Nat × Bytes × Nat × Bytes) × List ColumnInfo := (tableKey t, t.columns.map normCol)
@@ -528,11 +568,11 @@ def tableCols (t : TableDump) : (Nat × Bytes × Nat × Bytes) × List ColumnInf
 /-- **The columns of every dumped table** — no assumption on the heap files or the file reader. -/
 theorem dumpDatabase_columns (dec : Dec) (hd : CatDec dec) (π : MapOrder TableInfo) (hπ : ∀ l, π l ~ l) (l : Layout)
     (d : DbContent) (o : Options) (db : DbRow) (val : Spec.Val) (reader : Option FileReader) (hwf : d.WF l)
-    (hs : SchemaOK l d.att o.pgVersion) (ts : List TableDump)
+    (hs : SchemaOK l d.att o.pgVersion) (hasc : GoCase.FilterStable o d.cls.live) (ts : List TableDump)
     (h : dumpDatabaseFromFiles (readRows dec) π (encHeapOf pgClassCols classVals d.cls)
           (encHeapOf (pgAttributeCols l) (attrVals l) d.att) reader o = .ok ts) :
     ts.map tableCols = (expectedDb val o db d).tables.map fun t => (tableKey t, t.columns) := by
-  rw [dumpDatabase_tables dec hd π hπ l d o reader hwf hs] at h
+  rw [dumpDatabase_tables dec hd π hπ l d o reader hwf hs hasc] at h
   rw [expectedDb_tables, map_map]
   refine collectM_some_spec _ tableCols _ _ ts h ?_
   intro r hr t ht'
@@ -558,9 +598,11 @@ structure TreeOf (c : Cluster) (fs : Bytes → Option Bytes) : Prop where
 /-- what the tool needs of a database (beyond `DbContent.WF`) to dump it under options `o` — conditions every real cluster
 meets but `DbContent.WF` does not state: the version hint (if any) names the layout and the attstorage characters are legal
 ones (`SchemaOK`), the ordinary tables it dumps do not share a file name with a catalog or a non-heap relation, and their
-attnums have no gaps -/
+attnums have no gaps — and the table filter, if any, and the relation names are strings on which Go's `ToLower` is the Spec's
+ASCII lower-casing (`GoCase.FilterStable`: every ASCII string, `été`, `日本`; not `ÉTÉ`) -/
 structure DbDumpable (l : Layout) (d : DbContent) (o : Options) : Prop where
   schema : SchemaOK l d.att o.pgVersion
+  ascii : GoCase.FilterStable o d.cls.live
   files : ∀ r ∈ d.cls.live, selectedRel o r = true → r.filenode ≠ 1259 ∧ r.filenode ≠ 1249 ∧ d.raws.lookup r.filenode = none
   readable : ∀ r ∈ d.cls.live, selectedRel o r = true → ∀ pages, d.heaps.lookup r.filenode = some pages →
     o.listOnly = false → pages ≠ [] → RelReadable d r
@@ -581,6 +623,7 @@ theorem lookup_mem_pair {β} (m : List (Nat × β)) (k : Nat) (v : β) (h : m.lo
 
 /-- the loop body of DumpDataDir for one database: skipped, or the tables of DumpDatabaseFromFiles on its files -/
 theorem dumpDb_cases (rr : RowReader) (π : MapOrder TableInfo) (fs : Bytes → Option Bytes) (o : Options) (db : DbRow)
+    (htpl : isTemplateName db.name = db.isTemplate)
     (y : Option DatabaseDump) (h : dumpDb rr π fs o ⟨db.oid, db.name⟩ = .ok y) :
     (selectedDb o db = true ∧ ((fs (basePath db.oid 1259)).getD []).length ≠ 0 ∧
       ∃ ts, dumpDatabaseFromFiles rr π ((fs (basePath db.oid 1259)).getD []) ((fs (basePath db.oid 1249)).getD [])
@@ -588,7 +631,9 @@ theorem dumpDb_cases (rr : RowReader) (π : MapOrder TableInfo) (fs : Bytes → 
     ((selectedDb o db = false ∨ ((fs (basePath db.oid 1259)).getD []).length = 0) ∧ y = none) := by
   unfold dumpDb at h
   simp only at h
-  unfold selectedDb isTemplateName
+  unfold selectedDb
+  rw [← htpl]
+  unfold isTemplateName
   by_cases ht : isPrefixB (strBytes "template") db.name = true
   · rw [if_pos ht] at h
     injection h with h; subst h
@@ -634,7 +679,7 @@ theorem classFile_length (l : Layout) (d : DbContent) (hwf : d.WF l) :
   obtain ⟨hne, _, _, hcls, _, _, hfitc, _, _, _⟩ := hwf
   have hlen := encHeapOf_length pgClassCols classVals d.cls (fun s hs =>
     catalog_WF pgClassCols (classVals s.val) s.infomask (classVals_OK s.val (by have := (hcls s hs).1.2.1; omega))
-      (by decide) (hcls s hs).2.2.2.2.2) hfitc
+      (by decide) (hcls s hs).2.2.2.2.2.1) hfitc
   rw [hlen]
   cases hc : d.cls with
   | nil => exact absurd hc hne
@@ -643,19 +688,20 @@ theorem classFile_length (l : Layout) (d : DbContent) (hwf : d.WF l) :
 /-- the loop body of DumpDataDir for one live database -/
 theorem dumpDb_spec (dec : Dec) (hd : CatDec dec) (π : MapOrder TableInfo) (hπ : ∀ l, π l ~ l) (c : Cluster) (o : Options)
     (fs : Bytes → Option Bytes) (hwf : c.WF) (htree : TreeOf c fs) (db : DbRow)
-    (hdump : selectedDb o db = true → ∀ d, c.content.lookup db.oid = some d → DbDumpable c.layout d o)
+    (htpl : isTemplateName db.name = db.isTemplate)
+    (hdump : selectedDb o db = true → ∀ d, c.content.lookup db.oid = some d → DbDumpable c.layout d o ∧ A02Free d o)
     (y : Option DatabaseDump) (h : dumpDb (readRows dec) π fs o ⟨db.oid, db.name⟩ = .ok y) :
     y.map normDb = if selectedDb o db = true then (c.content.lookup db.oid).map (expectedDb (varlenaVal dec) o db) else none := by
-  rcases dumpDb_cases _ π fs o db y h with ⟨hsel, hlen, ts, hdf, rfl⟩ | ⟨hcase, rfl⟩
+  rcases dumpDb_cases _ π fs o db htpl y h with ⟨hsel, hlen, ts, hdf, rfl⟩ | ⟨hcase, rfl⟩
   · rw [if_pos hsel]
     cases hlk : c.content.lookup db.oid with
     | none => rw [htree.missing db.oid hlk] at hlen; simp at hlen
     | some d =>
       have hdwf : d.WF c.layout := hwf.2.2.2.2.2.2 (db.oid, d) (lookup_mem_pair _ _ _ hlk)
-      have hdd := hdump hsel d hlk
+      obtain ⟨hdd, hA02⟩ := hdump hsel d hlk
       rw [htree.cls db.oid d hlk, htree.att db.oid d hlk] at hdf
       simp only [Option.getD_some] at hdf
-      have := dumpDatabase_spec dec hd π hπ c.layout d o db (fun fn => fs (basePath db.oid fn)) hdwf hdd.schema
+      have := dumpDatabase_spec dec hd π hπ c.layout d o db (fun fn => fs (basePath db.oid fn)) hdwf hdd.schema hdd.ascii hA02
         (fun r hr hs _ => by
           obtain ⟨h1, h2, h3⟩ := hdd.files r hr hs
           exact htree.heap db.oid d hlk r.filenode h1 h2 h3)
@@ -676,9 +722,10 @@ def dbKey (d : DatabaseDump) : Nat × Bytes := (d.oid, d.name)
 /-- which database entries the loop body yields — no assumption beyond the catalog files being the encoded ones -/
 theorem dumpDb_key (dec : Dec) (π : MapOrder TableInfo) (c : Cluster) (o : Options) (val : Spec.Val)
     (fs : Bytes → Option Bytes) (hwf : c.WF) (htree : TreeOf c fs) (db : DbRow)
+    (htpl : isTemplateName db.name = db.isTemplate)
     (y : Option DatabaseDump) (h : dumpDb (readRows dec) π fs o ⟨db.oid, db.name⟩ = .ok y) :
     y.map dbKey = (if selectedDb o db = true then (c.content.lookup db.oid).map (expectedDb val o db) else none).map dbKey := by
-  rcases dumpDb_cases _ π fs o db y h with ⟨hsel, hlen, ts, _, rfl⟩ | ⟨hcase, rfl⟩
+  rcases dumpDb_cases _ π fs o db htpl y h with ⟨hsel, hlen, ts, _, rfl⟩ | ⟨hcase, rfl⟩
   · rw [if_pos hsel]
     cases hlk : c.content.lookup db.oid with
     | none => rw [htree.missing db.oid hlk] at hlen; simp at hlen
@@ -706,8 +753,9 @@ theorem expectedDump_eq (val : Spec.Val) (c : Cluster) (o : Options) :
 
 /-- **The whole data directory.** -/
 theorem dumpDataDir_spec (dec : Dec) (hd : CatDec dec) (π : MapOrder TableInfo) (hπ : ∀ l, π l ~ l) (c : Cluster) (o : Options)
-    (fs : Bytes → Option Bytes) (hwf : c.WF) (htree : TreeOf c fs)
-    (hdump : ∀ db ∈ c.dbs.live, selectedDb o db = true → ∀ d, c.content.lookup db.oid = some d → DbDumpable c.layout d o)
+    (fs : Bytes → Option Bytes) (hwf : c.WF) (htree : TreeOf c fs) (htpl : TemplatesByName c)
+    (hdump : ∀ db ∈ c.dbs.live, selectedDb o db = true → ∀ d, c.content.lookup db.oid = some d →
+      DbDumpable c.layout d o ∧ A02Free d o)
     (r : DumpResult) (h : dumpDataDir (readRows dec) π fs o = .ok (some r)) :
     r.map normDb = expectedDump (varlenaVal dec) c o := by
   unfold dumpDataDir at h
@@ -725,13 +773,13 @@ theorem dumpDataDir_spec (dec : Dec) (hd : CatDec dec) (π : MapOrder TableInfo)
     rw [← PgVerif.Proofs.Rows.collectM_map (fun d : DbRow => (⟨d.oid, d.name⟩ : DatabaseInfo))] at hc
     rw [expectedDump_eq]
     exact collectM_filterMap_spec _ normDb _ c.dbs.live r' hc
-      (fun db hdb y hy => dumpDb_spec dec hd π hπ c o fs hwf htree db (hdump db hdb) y hy)
+      (fun db hdb y hy => dumpDb_spec dec hd π hπ c o fs hwf htree db (htpl db hdb) (hdump db hdb) y hy)
 
 
 
 /-- **Which databases are dumped.** -/
 theorem dumpDataDir_databases (dec : Dec) (hd : CatDec dec) (π : MapOrder TableInfo) (c : Cluster) (o : Options) (val : Spec.Val)
-    (fs : Bytes → Option Bytes) (hwf : c.WF) (htree : TreeOf c fs)
+    (fs : Bytes → Option Bytes) (hwf : c.WF) (htree : TreeOf c fs) (htpl : TemplatesByName c)
     (r : DumpResult) (h : dumpDataDir (readRows dec) π fs o = .ok (some r)) :
     r.map dbKey = (expectedDump val c o).map dbKey := by
   unfold dumpDataDir at h
@@ -750,7 +798,7 @@ theorem dumpDataDir_databases (dec : Dec) (hd : CatDec dec) (π : MapOrder Table
     rw [expectedDump_eq]
     have := collectM_filterMap_spec _ dbKey
       (fun db => (if selectedDb o db = true then (c.content.lookup db.oid).map (expectedDb val o db) else none).map dbKey)
-      c.dbs.live r' hc (fun db _ y hy => dumpDb_key dec π c o val fs hwf htree db y hy)
+      c.dbs.live r' hc (fun db hdb y hy => dumpDb_key dec π c o val fs hwf htree db (htpl db hdb) y hy)
     rw [this, map_filterMap]
 
 
